@@ -633,6 +633,40 @@ func (g *lcGen) genUpdate(r *rand.Rand, c *beacon.ConsensusLightClient, honesty 
 
 // corrupt applies exactly one corruption of the kinds the property lists
 func (g *lcGen) corrupt(r *rand.Rand, c *beacon.ConsensusLightClient, u *lcUpd, allowStoreKey bool) {
+	// a genuine signature of the same signers over the same header, but under the domain of ANOTHER fork of the schedule:
+	// the fork in force at the attested slot when that differs from the one at the signature slot, else a neighbouring one
+	otherFork := func() bool {
+		if len(u.signers) == 0 {
+			return false
+		}
+		cur := [4]byte(c.Config.Spec.ForkVersion(common.Slot(u.sigSlot)))
+		alt := [4]byte(c.Config.Spec.ForkVersion(u.att.Slot))
+		if alt == cur || r.Intn(4) == 0 {
+			alt = cur
+			if alt[0] > 0 && r.Intn(2) == 0 {
+				alt[0]--
+			} else {
+				alt[0]++
+			}
+		}
+		if alt == u.fv {
+			return false
+		}
+		msg := lcSigningRoot(lcHdrRoot(&u.att), alt, h32(u.gvr))
+		for _, cm := range g.comms {
+			if lcSameKeys(lcKeysAt(cm.sc, u.bits), u.signers) {
+				u.sig = cm.sign(u.bits, msg)
+				u.signed = msg
+				u.corrupt = "domain-other-fork"
+				return true
+			}
+		}
+		return false
+	}
+	straddles := c.Config.Spec.ForkVersion(common.Slot(u.sigSlot)) != c.Config.Spec.ForkVersion(u.att.Slot)
+	if (straddles && r.Intn(2) == 0 || r.Intn(14) == 0) && otherFork() {
+		return
+	}
 	for try := 0; try < 8; try++ {
 		switch r.Intn(11) {
 		case 0: // signature: flip one bit (almost surely no longer a curve point)
@@ -1097,6 +1131,14 @@ func runC12(o *Out, r *rand.Rand, thorough bool, _ []string) {
 		add(func(t *lcTask, r *rand.Rand) {
 			P := uint64(1000 + r.Intn(200))
 			slot := P*lcSlotsPerPeriod + uint64(r.Intn(lcSlotsPerPeriod))
+			forkEnd := uint64(0)
+			if r.Intn(4) == 0 {
+				// the last period of a fork: the sequence walks across a fork activation (mainnet: Altair, Bellatrix, Capella and
+				// Deneb all start with a period), so attested and signature slots fall into different forks
+				P = []uint64{289, 565, 757, 1052}[r.Intn(4)]
+				slot = (P+1)*lcSlotsPerPeriod - uint64(10+r.Intn(300))
+				forkEnd = (P + 1) * lcSlotsPerPeriod
+			}
 			b := g.genBoot(r, slot, g.comms[int(P)%len(g.comms)])
 			b.cp = common.Root(lcHdrRoot(&b.hdr.Beacon)) // what the consensus spec compares
 			c, in, res := g.runBoot(b, id)
@@ -1123,8 +1165,14 @@ func runC12(o *Out, r *rand.Rand, thorough bool, _ []string) {
 						hint = end - uint64(1+r.Intn(100))
 					}
 				}
+				if S := uint64(c.Store.FinalizedHeader.Slot); forkEnd != 0 && S+4 < forkEnd && c.Store.NextSyncCommittee != nil && r.Intn(2) == 0 {
+					// attested in the last slots of the old fork, signed in the first slots of the new one
+					hint = forkEnd - 1 - uint64(r.Intn(2))
+					wrapper = r.Intn(3) != 0
+				}
 				u := g.genUpdate(r, c, 0.93, false, wrapper, hint)
-				if r.Intn(100) < 15 {
+				crossesFork := c.Config.Spec.ForkVersion(common.Slot(u.sigSlot)) != c.Config.Spec.ForkVersion(u.att.Slot)
+				if r.Intn(100) < 15 || crossesFork && r.Intn(3) == 0 {
 					g.corrupt(r, c, u, false)
 				}
 				in, res := g.runUpdate(c, u, id, false, wrapper)
